@@ -22,6 +22,7 @@ PROFILE = {
     "max_delay_ticks": 16,
     "placements": True,
     "multi_call": (1, 2),
+    "handler_time": 0.3,
 }
 ENTRIES = C.RETRY_ENTRIES + ["Retry.context.call", "AsyncRetry.context.call", "Policy.context.call", "AsyncRetryPolicy.context.call", "decorator.call", "adecorator.call", "Retry.from_config.call", "AsyncRetryPolicy.from_config.execute"]
 
@@ -68,7 +69,7 @@ def enum_protocol(tier: str):
     where = ["call", "policy", "both", "none"]
     decisions = [["sleep", "sleep", "sleep"], ["defer"], ["sleep", "defer"], ["abort"], ["sleep", "sleep", "abort"], None]
     entries = ["Retry.call", "Retry.execute", "AsyncRetry.call", "AsyncRetry.execute", "Policy.call", "AsyncPolicy.execute", "RetryPolicy.execute"]
-    flavours = ["async", "sync", "awaitable"]
+    flavours = ["async", "sync", "awaitable", "awaitable_obj"]
     for sl, bf, hd, dec, e in itertools.product(where, where, ["call", "policy", "both"], decisions, entries):
         fl = flavours if e.startswith("Async") else ["sync"]
         for f1 in fl:
